@@ -2,6 +2,7 @@
 from __future__ import annotations
 
 import ast
+import os
 from dataclasses import dataclass, field
 from typing import Any, Iterator
 
@@ -50,7 +51,7 @@ class EngineBase:
         self.stmts_executed = 0
         self._ref = 0
         self._solver = z3.Solver()
-        self._solver.set("timeout", 1500)
+        self._solver.set("timeout", int(os.environ.get("PYVC_FEAS_MS", "250")))
         self.cur_func = ""
         self.cur_serves: tuple = ()
         self.call_depth = 0
@@ -83,19 +84,36 @@ class EngineBase:
 
     # ------------------------------------------------------------ feasibility
     def feasible(self, st: State, extra: Any = True) -> bool:
-        """False only if pc /\\ extra is definitely unsatisfiable (quantifier-free part only)."""
+        """False only if pc /\\ extra is definitely unsatisfiable (quantifier-free part only).
+        The solver is kept in sync with the path condition incrementally: exploration is depth first, so consecutive
+        queries share long prefixes."""
         if extra is False:
             return False
         s = self._solver
+        stack = self.__dict__.setdefault("_fe_stack", [])     # ids of the pc entries currently asserted (one push each)
+        pc = st.pc
+        n = 0
+        while n < len(stack) and n < len(pc) and stack[n] == id(pc[n]):
+            n += 1
+        for _ in range(len(stack) - n):
+            s.pop()
+        del stack[n:]
+        for c in pc[n:]:
+            s.push()
+            if is_z3(c) and not _has_quantifier(c):
+                s.add(c)
+            elif c is False:
+                s.add(z3.BoolVal(False))
+            stack.append(id(c))
+        self.__dict__.setdefault("_fe_keep", []).append(pc)   # keep the tuples alive so ids stay unique
+        if len(self._fe_keep) > 4000:
+            del self._fe_keep[:2000]
+        if extra is True:
+            return s.check() != z3.unsat
         s.push()
         try:
-            for c in st.pc:
-                if is_z3(c) and not _has_quantifier(c):
-                    s.add(c)
-            if extra is not True:
-                s.add(extra)
-            r = s.check()
-            return r != z3.unsat
+            s.add(extra)
+            return s.check() != z3.unsat
         finally:
             s.pop()
 
@@ -315,6 +333,15 @@ class EngineBase:
             lst = st.obj(fr).get("rows")
             st = st.heap_set(lst, "items", (row,) + st.obj(lst).get("items"))
             return st, fr, list(invs) + list(inv2)
+        if k == "iter":
+            items = []
+            invs = []
+            for i in range(sort.arg2):
+                st, v, inv = self.make(st, sort.arg, f"{name}[{i}]")
+                items.append(v)
+                invs += inv
+            st, r = self.alloc(st, "iter", None, items=tuple(items), pos=0)
+            return st, r, invs
         if k == "rows_exact":
             items = []
             invs = []
